@@ -54,6 +54,8 @@ type c16World struct {
 	groupRec   *recRecorder
 	routeH     *mon.Hnd
 	optH, m405 *mon.Hnd
+	rootOpt    *mon.Hnd // the OPTIONS * handler
+	buildFault string
 	nf, trace  *mon.Hnd
 	g404       *mon.Hnd
 	prefix     string // path prefix that reaches the router
@@ -91,10 +93,15 @@ func buildC16(kind string, opt bool) *c16World {
 		g.Add(mux.NewPathVersion("", "api"), r)
 		w.serve, w.g404, w.prefix = g, w.env.Group404, "/api"
 	case "group-new", "group-new-extra": // the router inherits the group's recovery option (also when it brings unrelated options of its own)
-		o := []mux.Option{mux.WithTrace(w.trace)}
+		// the option list of the group is a list of the caller with spare capacity; a second list of the caller extends it
+		// by a recovery option for a stand-alone "witness" router that is built after Group.New has run
+		o := make([]mux.Option, 0, 8)
+		o = append(o, mux.WithTrace(w.trace))
 		if opt {
 			o = append(o, recOpt(w.groupRec))
 		}
+		witnessRec := &recRecorder{}
+		derived := append(o, recOpt(witnessRec))
 		g := w.env.NewGroup(o...)
 		if kind == "group-new-extra" {
 			r = g.New("r", mux.NewPathVersion("", "api"), mux.WithURLDomain("https://u.example"), mux.WithLock(true), mux.WithAllowedCORS(60))
@@ -102,8 +109,21 @@ func buildC16(kind string, opt bool) *c16World {
 			r = g.New("r", mux.NewPathVersion("", "api"))
 		}
 		w.kind, w.label = "group-new", kind
+		wenv := mon.NewEnv()
+		witness := wenv.NewRouter("witness", derived...)
+		wh := wenv.NewHnd(mon.KRoute, "/w")
+		wh.Panic = &mon.PanicSpec{Value: "witness panics"}
+		witness.Handle("/w", wh, nil, "GET")
+		if o := mon.Do(witness, mon.Req{Method: "GET", Path: "/w"}); o.Panicked || witnessRec.calls != 1 {
+			w.buildFault = fmt.Sprintf("a stand-alone router built from the caller's second option list (the group's list plus a recovery option) after Group.New ran: panic escaped=%v, its recovery function ran %d times - Group.New wrote into the caller's option list", o.Panicked, witnessRec.calls)
+		}
 		w.routerRec = w.groupRec
 		w.serve, w.g404, w.prefix = g, w.env.Group404, "/api"
+	}
+	for _, b := range w.env.Builders {
+		if b.Kind == mon.KOptions && b.Pattern == "" {
+			w.rootOpt = b.H
+		}
 	}
 	w.nf = w.env.NotFoundOf["r"]
 	if w.nf == nil { // a router made by Group.New answers 404 with the group's (unwrapped) not-found handler
@@ -159,6 +179,7 @@ type c16Site struct {
 	after  bool
 	inCall bool
 	writes bool // the user function sets a header, sends a status and body bytes before it panics
+	root   bool // asterisk-form / empty request target: only a stand-alone router sees it (a group's matchers look at the path)
 }
 
 func c16Sites() []c16Site {
@@ -174,6 +195,11 @@ func c16Sites() []c16Site {
 		{name: "404 handler", method: "GET", path: "/zzz", target: func(w *c16World) *mon.Hnd { return w.nf }},
 		{name: "TRACE handler", method: "TRACE", path: "/p/7", target: func(w *c16World) *mon.Hnd { return w.trace }},
 		{name: "CallFunc", method: "GET", path: "/p/7", inCall: true},
+		{name: "OPTIONS * handler", method: "OPTIONS", path: "*", root: true, target: func(w *c16World) *mon.Hnd { return w.rootOpt }},
+		{name: "OPTIONS handler for the empty request target", method: "OPTIONS", path: "", root: true, target: func(w *c16World) *mon.Hnd { return w.rootOpt }},
+		{name: "404 handler for GET *", method: "GET", path: "*", root: true, target: func(w *c16World) *mon.Hnd { return w.nf }},
+		{name: "TRACE handler for TRACE *", method: "TRACE", path: "*", root: true, target: func(w *c16World) *mon.Hnd { return w.trace }},
+		{name: "CallFunc for the empty request target", method: "GET", path: "", root: true, inCall: true},
 		{name: "group not-found", method: "GET", path: "/outside", group: true, target: func(w *c16World) *mon.Hnd { return w.g404 }},
 		{name: "CallFunc for group not-found", method: "GET", path: "/outside", group: true, inCall: true},
 	}
@@ -204,6 +230,9 @@ func sameValue(pv panicValue, got any) bool {
 // inject performs one faulty request and checks the C16 oracle.
 func (w *c16World) inject(c *Ctx, site c16Site, pv panicValue) {
 	if site.group && w.g404 == nil {
+		return
+	}
+	if site.root && (w.g404 != nil || w.rootOpt == nil) {
 		return
 	}
 	path := w.prefix + site.path
@@ -347,6 +376,10 @@ func runC16(c *Ctx) {
 	for _, kind := range []string{"router", "group-add", "group-new", "group-new-extra"} {
 		for _, opt := range []bool{true, false} {
 			w := buildC16(kind, opt)
+			if w.buildFault != "" {
+				c.Violate(w.buildFault, map[string]any{"container": kind})
+				return
+			}
 			for _, s := range sites {
 				for _, pv := range panicValues {
 					if s.group && w.g404 == nil {
@@ -389,7 +422,7 @@ func init() {
 		Cases:      func(t string) int { return map[string]int{"quick": 1000, "thorough": 40000}[t] },
 		Run:        runC16,
 		Exhaustive: true,
-		Rule: "every case enumerates the complete product: 18 panic sites (route handler per method, automatic HEAD, GET and HEAD handlers that write a header, a status and body bytes before panicking, OPTIONS, 405, 404, TRACE, each middleware layer Use/prefix/registration before and after next, CallFunc, group not-found, CallFunc for group not-found) x 5 panic values (string, error, struct, genuine runtime.Error, http.ErrAbortHandler) x 4 containers (Router, Group+Add-ed router with its own recovery, Group.New router inheriting the group's option, the same with unrelated options of its own) x recovery on/off; after every fault a normal request and a 404 are checked; then a random sequence of 60 faulty/normal requests; " +
+		Rule: "every case enumerates the complete product: 23 panic sites (route handler per method, automatic HEAD, the asterisk-form and empty request targets on a stand-alone router (OPTIONS *, GET *, TRACE *, empty path), GET and HEAD handlers that write a header, a status and body bytes before panicking, OPTIONS, 405, 404, TRACE, each middleware layer Use/prefix/registration before and after next, CallFunc, group not-found, CallFunc for group not-found) x 5 panic values (string, error, struct, genuine runtime.Error, http.ErrAbortHandler) x 4 containers (Router, Group+Add-ed router with its own recovery, Group.New router inheriting the group's option, the same with unrelated options of its own) x recovery on/off; after every fault a normal request and a 404 are checked; then a random sequence of 60 faulty/normal requests; " +
 			"non-trivial (distinct) = every (container, option, site, value) combination",
 		Floors: func(t string) map[string]int64 {
 			return map[string]int64{"recovered": 200, "passed_through": 200, "product_combinations_enumerated": 400, "random_sequence_fault": 100}
